@@ -689,3 +689,97 @@ Qed.
 Theorem unpack_partial_sound src : bytes_ok src ->
   exists ext more, bytes_ok ext /\ unpack (src ++ ext) = Some (fst (unpack_partial src) ++ more).
 Proof. intros Hb. apply (unpack_partial_sound_n (length src)); [lia|assumption]. Qed.
+
+(* ------------------------------------------------------------ (b) at the Read interface *)
+
+(* Prefix property of the byte interface on ANY input, in particular on inputs the one-shot
+   decoder rejects.  For every oracle and all request sizes the Read calls return bytes [o]
+   and then an error [e] such that
+   - [o] is the determined output of the input (a function of the input alone);
+   - [e] is EOF when [unpack] accepts the input (then o is its output), UnexpectedEOF otherwise;
+   - completeness: for every split inp = good ++ rest with [unpack good = Some out], [o]
+     starts with [out] (every complete item is delivered before the error);
+   - soundness: some extension of the input is accepted by [unpack] with an output that starts
+     with [o] (every byte handed out is a byte the one-shot decoder produces for an accepted
+     extension of the input: nothing is invented before the error either). *)
+Theorem read_calls_prefix : forall orc sizes inp, bytes_ok inp ->
+  forall fuel, (2304 * length inp + 1 <= fuel)%nat ->
+  exists o e,
+    read_calls true fuel orc 0 b_init inp sizes 0 = Some (o, e) /\
+    o = fst (unpack_partial inp) /\
+    e = match unpack inp with Some _ => EOF | None => UnexpectedEOF end /\
+    (forall good rest out, inp = good ++ rest -> unpack good = Some out ->
+       exists extra, o = out ++ extra) /\
+    (exists ext more, bytes_ok ext /\ unpack (inp ++ ext) = Some (o ++ more)).
+Proof.
+  intros orc sizes inp Hb fuel Hf.
+  exists (fst (unpack_partial inp)), (verdict (snd (unpack_partial inp))).
+  split; [now apply read_calls_partial|]. split; [reflexivity|]. split.
+  { pose proof (unpack_partial_unpack inp) as H. destruct (unpack inp); rewrite H; reflexivity. }
+  split.
+  { intros good rest out -> H. now apply unpack_partial_prefix. }
+  now apply unpack_partial_sound.
+Qed.
+
+(* link with the option-valued denotation of ReadCallProofs (for users of [read_call_spec]) *)
+Lemma EP_expected st inp :
+  match expected st inp with
+  | Some s => EP st inp = (s, true)
+  | None => snd (EP st inp) = false
+  end.
+Proof.
+  unfold expected, EP.
+  destruct (length inp <? 8 * Z.to_nat (r_literal st))%nat; [reflexivity|].
+  pose proof (unpack_partial_unpack_s _ (skipn (8 * Z.to_nat (r_literal st)) inp) (le_n _)) as H.
+  destruct (unpack_s true (skipn (8 * Z.to_nat (r_literal st)) inp)); cbn [option_map].
+  - rewrite H. reflexivity.
+  - unfold pmap. cbn [snd]. exact H.
+Qed.
+
+Lemma DP_D b inp :
+  match D b inp with
+  | Some s => DP b inp = (s, true)
+  | None => snd (DP b inp) = false
+  end.
+Proof.
+  unfold D, DP, expected', EP'. destruct (r_err (b_r b)); [reflexivity|].
+  pose proof (EP_expected (b_r b) inp) as H.
+  destruct (expected (b_r b) inp); cbn [option_map].
+  - rewrite H. reflexivity.
+  - unfold pmap. cbn [snd]. exact H.
+Qed.
+
+(* ------------------------------------------------------------ non-vacuity *)
+
+(* ex_inp cut inside its literal run (count 2): one literal word is complete, the second has
+   4 of 8 bytes.  The reader hands out the three complete items' output (5 words), the tag word
+   of the literal item and its first literal word, then UnexpectedEOF; the 4 dangling bytes are
+   not handed out.  The complete items are the first 4 bytes; completing the literal word makes
+   the one-shot decoder accept with an output that extends what was handed out. *)
+Example read_calls_prefix_example :
+  let inp := firstn 26 ex_inp in
+  let o := [0; 0; 0; 0; 5; 0; 0; 0] ++ zeros 24 ++ [1; 2; 3; 4; 5; 6; 7; 8] ++ [9; 9; 9; 9; 0; 0; 9; 9] in
+  bytes_ok inp /\ unpack inp = None /\
+  unpack_partial inp = (o, false) /\
+  read_calls true (read_fuel inp) ex_orc 0 b_init inp ex_sizes 0 = Some (o, UnexpectedEOF) /\
+  unpack (firstn 4 inp) = Some ([0; 0; 0; 0; 5; 0; 0; 0] ++ zeros 24) /\
+  unpack (inp ++ [7; 7; 7; 7]) = Some (o ++ [7; 7; 7; 7; 7; 7; 7; 7]).
+Proof.
+  cbv zeta. split; [unfold bytes_ok, byte_ok; repeat constructor; lia|].
+  repeat split; vm_compute; reflexivity.
+Qed.
+
+(* the hypotheses of the invariant theorems hold at the start of a stream that does not unpack,
+   and the conclusion is not trivial there: a Read of 3 bytes returns 3 bytes and leaves the
+   other 5 bytes of the decoded word in the word buffer *)
+Example read_call_bytes_ok_example :
+  let inp := firstn 26 ex_inp in
+  bvalid b_init /\ bytes_ok (b_word b_init) /\ bytes_ok inp /\ unpack inp = None /\
+  exists k' st' inp',
+    read_call true ex_orc 0 b_init inp 3 = (k', st', inp', [0; 0; 0], None) /\
+    b_idx st' = 3%nat /\ b_word st' = [0; 0; 0; 0; 5; 0; 0; 0].
+Proof.
+  cbv zeta. split; [exact b_init_valid|]. split; [apply (bytes_ok_zeros 8)|].
+  split; [unfold bytes_ok, byte_ok; repeat constructor; lia|]. split; [vm_compute; reflexivity|].
+  eexists. eexists. eexists. repeat split; vm_compute; reflexivity.
+Qed.
